@@ -133,16 +133,19 @@ def run(ctx):
         counters['loader_' + k] = v
     for k, v in rres.counters.items():
         counters['reprio_' + k] = v
+    # only a silent run can be vacuous (a changed tree that is reported may
+    # legitimately starve a counter)
+    silent = not (res.violations or lres.violations or rres.violations)
     for k in R.MUST_FIRE:
-        if not counters.get('reprio_' + k):
+        if silent and not counters.get('reprio_' + k):
             raise RuntimeError('C06: vacuous re-prioritisation sweep, %s '
                                'never fired' % k)
-    if res.exhaustive:
+    if res.exhaustive and silent:
         for k in MUST_FIRE:
             if not counters.get(k):
                 raise RuntimeError('C06: vacuous sweep, %s never fired' % k)
     for k in L.MUST_FIRE:
-        if not counters.get('loader_' + k):
+        if silent and not counters.get('loader_' + k):
             raise RuntimeError('C06: vacuous loader sweep, %s never fired' % k)
     show, show_viol = _showcase()
     for v in show_viol:
